@@ -346,6 +346,21 @@ class A_Belt(Adapter):
         return h.store.belt.reserve_get_cancel(ev)
 
 
+class A_BeltPrio(A_Belt):
+    """slotted BeltStore with request priorities: reservations go to the store (the edge has no priority argument), puts/gets through the edge"""
+    prio = True
+
+    def __init__(self, cap=2):
+        super().__init__("slotted", True, cap)
+        self.name = f"SlottedBeltStore[priorities,cap={cap}]"
+
+    def reserve_put(self, h, prio):
+        return h.store.belt.reserve_put(prio)
+
+    def reserve_get(self, h, prio, theta):
+        return h.store.belt.reserve_get(prio)
+
+
 def adapter(name):
     table = {
         "RPRS": lambda: A_RPRS(),
@@ -360,6 +375,8 @@ def adapter(name):
         "BUFE_FIFO_CONST": lambda: A_BufferEdge("FIFO", "const"),
         "FLEET": lambda: A_Fleet(),
         "FLEETE": lambda: A_FleetEdge(),
+        "SBELT_PRIO": lambda: A_BeltPrio(2),
+        "SBELT_PRIO3": lambda: A_BeltPrio(3),
         "SBELT_ACC": lambda: A_Belt("slotted", True, 2),
         "SBELT_NOACC": lambda: A_Belt("slotted", False, 2),
         "CBELT_ACC": lambda: A_Belt("continuous", True, 2),
@@ -401,6 +418,7 @@ class Harness:
         self.mid_arrival = False
         self.reported = set()
         self.in_kstep = False
+        self.early = False
         self.store = ad.build(self)
         self.drain()
 
@@ -745,6 +763,24 @@ class Harness:
         self.drain()
         self.ctx.log("advance", self.env.now)
 
+    def advance_early(self, g=None):
+        """let time pass by g and stop at the START of that instant: the wake-up is URGENT, as if the caller had been
+        scheduled before everything else that happens then; the instant is not drained, so the next call comes first"""
+        if g is None:
+            g = self.ad.new_gap(self)
+        self.drain()
+        ev = self.env.event()
+        ev._ok = True
+        ev._value = None
+        self.env.schedule(ev, 0, g)
+        n = 0
+        while not ev.processed:
+            self.kstep()
+            n += 1
+            if n > 4000:
+                self.fail("CRASH:zero-time-livelock", {"events": n})
+        self.ctx.log("advance-early", self.env.now)
+
     # -- free step ---------------------------------------------------------------
     def free_step(self, allow_advance=True):
         ctx = self.ctx
@@ -757,6 +793,8 @@ class Harness:
                 acts.append(("cancel", t))
         if self.ad.timed and allow_advance:
             acts.append(("adv", None))
+            if self.early:
+                acts.append(("adv-early", None))
         a, t = acts[ctx.choice(len(acts), "act")]
         proc = self.pick_proc() if a in ("rp", "rg") else None
         if a == "rp":
@@ -774,6 +812,8 @@ class Harness:
                 self.do_get(t)
         elif a == "cancel":
             self.do_cancel(t)
+        elif a == "adv-early":
+            self.advance_early()
         else:
             self.advance()
         ctx.hit("step:" + a)
@@ -896,7 +936,7 @@ def _prefix_priority(h, N, side):
         for i in range(c):
             t = h.do_reserve_put()
             key = ctx.choice(2, "key") if ad.filt else None
-            if ctx.choice(2, "fill-with-item?"):
+            if t.state == "granted" and ctx.choice(2, "fill-with-item?"):
                 h.do_put(t, key=key)
         toks = [h.do_reserve_put() for _ in range(m)]
         for t in toks:
@@ -923,7 +963,7 @@ def _prefix_arrivals(h, N):
 
 
 def scenario(store, family, N=3, K=2, oracles=("C01", "C02", "C04", "C05", "C06"), cap_max=None, cap_fixed=None,
-             sym_prio=False, R2=2, USE=True, TR=True, twin=False, RMAX=9, S=2):
+             sym_prio=False, R2=2, USE=True, TR=True, twin=False, RMAX=9, S=2, EARLY=False):
     """returns fn(ctx) exploring prefix(family, N) followed by K free calls on the given store."""
     def fn(ctx):
         ad = adapter(store)
@@ -932,6 +972,7 @@ def scenario(store, family, N=3, K=2, oracles=("C01", "C02", "C04", "C05", "C06"
             cm = 2
         h = Harness(ctx, ad, oracles, cap_max=cm, cap_fixed=cap_fixed,
                     sym_prio=sym_prio or family.startswith("prio"))
+        h.early = EARLY
         if family == "retrieval":
             _prefix_retrieval(h, N, with_transit=TR, R2=R2, USE=USE, RMAX=RMAX, S=S)
         elif family == "both":
